@@ -38,7 +38,8 @@ class Desc:
         s = str(v)
         if self.last2:
             s = s[-2:]
-            s = str(int(s))
+            if self.canon:
+                s = str(int(s))
         elif self.canon:
             s = str(int(s))
         return s.zfill(self.pad) if self.pad else s
@@ -89,7 +90,7 @@ def describe_formatter(fn: FunctionInfo) -> Desc:
         l2 = _last2(inner, p)
         if l2 is None:
             raise AnalysisError(f"formatter {fn.fq}: shape not enumerated: {unparse(e)}")
-        return Desc(last2=l2, canon=canon or l2, pad=0)
+        return Desc(last2=l2, canon=canon, pad=0)          # without int(...) the last two digits keep a leading zero ("05")
     # f"{X:0N}"
     if isinstance(e, ast.JoinedStr) and len(e.values) == 1 and isinstance(e.values[0], ast.FormattedValue):
         fv = e.values[0]
